@@ -3,6 +3,7 @@
 package didsubject
 
 import (
+	"github.com/google/uuid"
 	"database/sql"
 	"context"
 	"errors"
@@ -75,6 +76,7 @@ func hSave(db *gorm.DB, value interface{}) *gorm.DB {
 	if r.Error == nil {
 		if c, ok := value.(*orm.DIDChangeLog); ok {
 			hDB.pending = append(hDB.pending, hSQLOp{kind: "save", arg: c.DIDDocumentVersionID})
+			hDB.pending = append(hDB.pending, hSQLOp{kind: "save-txid", arg: c.TransactionID})
 		}
 	}
 	return r
@@ -117,6 +119,7 @@ type hMethodManager struct {
 	commitFail bool
 	committed  []string // document version ids for which Commit succeeded
 	isCommitted map[string]bool
+	isCommittedErr map[string]bool // the method cannot tell (e.g. the DID does not resolve right now)
 }
 
 func (m *hMethodManager) Commit(ctx context.Context, e orm.DIDChangeLog) error {
@@ -128,6 +131,9 @@ func (m *hMethodManager) Commit(ctx context.Context, e orm.DIDChangeLog) error {
 }
 
 func (m *hMethodManager) IsCommitted(ctx context.Context, e orm.DIDChangeLog) (bool, error) {
+	if m.isCommittedErr[e.DIDDocumentVersionID] {
+		return false, errors.New("harness: cannot determine whether the change was published")
+	}
 	return m.isCommitted[e.DIDDocumentVersionID], nil
 }
 
@@ -232,13 +238,19 @@ func H13b() {
 	n := vLen(1, 4)
 	hDB.found = all[:n]
 	com := make([]bool, n)
+	errs := make([]bool, n) // IsCommitted fails for this change
+	anyErr := false
+	web.isCommittedErr, nuts.isCommittedErr = map[string]bool{}, map[string]bool{}
 	for i := 0; i < n; i++ {
 		com[i] = vBool()
-		if i%2 == 0 {
-			web.isCommitted[all[i].DIDDocumentVersionID] = com[i]
-		} else {
-			nuts.isCommitted[all[i].DIDDocumentVersionID] = com[i]
+		errs[i] = vBool()
+		anyErr = anyErr || errs[i]
+		mm := web
+		if i%2 == 1 {
+			mm = nuts
 		}
+		mm.isCommitted[all[i].DIDDocumentVersionID] = com[i]
+		mm.isCommittedErr[all[i].DIDDocumentVersionID] = errs[i]
 	}
 	m.Rollback(context.Background())
 	groupUncommitted := func(lo, hi int) bool {
@@ -253,6 +265,26 @@ func H13b() {
 		lo, hi := 2*g, 2*g+2
 		if lo >= n {
 			continue
+		}
+		// whatever the methods answer (also "cannot tell"): the change records of an operation go only when its
+		// fate is decided - every change is known to be published, or every one of its versions is removed;
+		// and a version is removed only from an operation that is not known to be published completely
+		allPublished, allRemoved := true, true
+		for i := lo; i < hi && i < n; i++ {
+			allPublished = allPublished && com[i] && !errs[i]
+			allRemoved = allRemoved && hasOp("delete-doc", all[i].DIDDocumentVersionID)
+		}
+		if hasOp("delete-log", txid) {
+			vAssert(allPublished || allRemoved, "H13b.log_removed_only_when_decided: change records removed while an unpublished or undetermined version stays")
+		}
+		for i := lo; i < hi && i < n; i++ {
+			if hasOp("delete-doc", all[i].DIDDocumentVersionID) {
+				vAssert(!allPublished, "H13b.committed_group_kept: a fully published operation lost a document version")
+			}
+		}
+		if anyErr {
+			vCover("method-cannot-tell")
+			continue // the sweep may stop and retry later; the invariants above are what must hold
 		}
 		vAssert(hasOp("delete-log", txid), "H13b.every_group_log_removed: change records of a swept operation remain")
 		for i := lo; i < hi && i < n; i++ {
@@ -276,5 +308,89 @@ func H13b_twin() {
 	m.Rollback(context.Background())
 	if hasOp("delete-doc", "x") {
 		vAssert(false, "H13b_twin.reach: reachable")
+	}
+}
+
+
+//verif:stub (github.com/nuts-foundation/nuts-node/vdr/didsubject.SqlDIDManager).FindBySubject => hFindBySubject
+//verif:stub (*github.com/nuts-foundation/nuts-node/vdr/didsubject.SqlDIDDocumentManager).CreateOrUpdate => hCreateOrUpdate
+
+//verif:stub github.com/google/uuid.New => hUUIDNew
+
+var hSubjectDIDs []orm.DID
+var hUUIDCount byte
+
+// hUUIDNew: uuid.New reads crypto/rand through a package-level reader; contract: every call yields a fresh value.
+func hUUIDNew() uuid.UUID {
+	hUUIDCount++
+	return uuid.UUID{0: hUUIDCount, 6: 0x40, 8: 0x80}
+}
+
+// the SQL managers below transactionHelper (gorm query builders) answer from the harness: the subject's DIDs, and a
+// new document version per DID (or a database error at a symbolic position)
+func hFindBySubject(s SqlDIDManager, subject string) ([]orm.DID, error) {
+	if vBool() {
+		return nil, errHSQL
+	}
+	return hSubjectDIDs, nil
+}
+
+func hCreateOrUpdate(s *SqlDIDDocumentManager, d orm.DID, vms []orm.VerificationMethod, services []orm.Service) (*orm.DidDocument, error) {
+	if vBool() {
+		return nil, errHSQL
+	}
+	return &orm.DidDocument{ID: "v-" + d.ID, DID: d, Version: 1}, nil
+}
+
+// H13c: a whole operation (the real Deactivate: change records built by the operation itself, then the real
+// transactionHelper) on a subject with one DID per method, for every combination of database and publish
+// failures: the change records written for ONE operation carry ONE transaction id (the sweep decides per
+// transaction id - records that do not share it would let the DIDs of a subject diverge), and after an operation
+// that succeeded no change record remains: every transaction id that was written is cleared again.
+func H13c() {
+	vMapOrder(true)
+	hDB = &hSQL{txFails: []bool{vBool(), vBool()}}
+	web := &hMethodManager{name: "web", commitFail: vBool()}
+	nuts := &hMethodManager{name: "nuts", commitFail: vBool()}
+	m := &SqlManager{DB: &gorm.DB{}, MethodManagers: map[string]MethodManager{"web": web, "nuts": nuts}}
+	hUUIDCount = 0
+	hSubjectDIDs = []orm.DID{{ID: "did:web:example.com", Subject: "s"}, {ID: "did:nuts:abc", Subject: "s"}}
+	err := m.Deactivate(context.Background(), "s")
+	var txids []string
+	for _, o := range hDB.ops {
+		if o.kind == "save-txid" {
+			txids = append(txids, o.arg)
+		}
+	}
+	if len(txids) == 0 {
+		vCover("nothing-written")
+		vAssert(err != nil, "H13c.failure_reported: nothing was written but the operation reported success")
+		vAssert(len(web.committed) == 0 && len(nuts.committed) == 0, "H13c.nothing_published_without_record: a method published without a change record")
+		return
+	}
+	vCover("records-written")
+	vAssert(len(txids) == 2, "H13c.one_record_per_did: not every DID of the subject got a change record")
+	for _, id := range txids {
+		vAssert(id == txids[0], "H13c.one_transaction_id_per_operation: change records of one operation carry different transaction ids")
+	}
+	if err == nil {
+		vCover("success")
+		for _, id := range txids {
+			vAssert(hasOp("delete-log", id), "H13c.no_record_remains_after_success: a change record of a successful operation remains")
+		}
+		vAssert(len(web.committed) == 1 && len(nuts.committed) == 1, "H13c.all_methods_published: success reported but a method did not publish")
+	} else {
+		vCover("failure")
+	}
+}
+
+func H13c_twin() {
+	hDB = &hSQL{txFails: []bool{false, false}}
+	web := &hMethodManager{name: "web"}
+	m := &SqlManager{DB: &gorm.DB{}, MethodManagers: map[string]MethodManager{"web": web}}
+	hUUIDCount = 0
+	hSubjectDIDs = []orm.DID{{ID: "did:web:example.com", Subject: "s"}}
+	if m.Deactivate(context.Background(), "s") == nil && countOps("delete-log") == 1 {
+		vAssert(false, "H13c_twin.reach: reachable")
 	}
 }
